@@ -645,13 +645,36 @@ class SpillWatch:
         return []
 
 
-def compile_ir(m, level, watch=None):
-    """optimize + ir_to_object + relocatable ELF of an IR module (renamed already). -> (obj, elf, err)"""
+def ir_tags(m):
+    """Names a second known defect class (label for violation keys only): ["latch-phi"] when some block's
+    terminator uses a phi of one of that block's successors (a loop that tests its own phi: the selection DAG
+    places the phi copies before the terminator, which then sees the next iteration's value)."""
+    try:
+        for f in m.functions:
+            for b in f.blocks:
+                term = b.instructions[-1] if b.instructions else None
+                if term is None:
+                    continue
+                phis = set()
+                for s_ in b.successors:
+                    phis.update(s_.phis)
+                if any(u in phis for u in term.uses):
+                    return ["latch-phi"]
+    except Exception:
+        return []
+    return []
+
+
+def compile_ir(m, level, watch=None, tags=None):
+    """optimize + ir_to_object + relocatable ELF of an IR module (renamed already). -> (obj, elf, err);
+    `tags` (a list) receives ir_tags of the module handed to the back-end."""
     from ppci import api
 
     try:
         if str(level) != "0":
             api.optimize(m, level=level)
+        if tags is not None:
+            tags.extend(ir_tags(m))
         obj = api.ir_to_object([m], "x86_64")
     except Exception as e:  # code generation refused the module: property C29's business
         return None, None, "codegen:" + type(e).__name__
